@@ -69,7 +69,8 @@ func runSegStress(cfgJSON string, res *vlib.Result) {
 	}
 	defer func() { storage.VerifSegmentTracer = nil }()
 	origin := time.Date(2026, 5, 10, 0, 0, 0, 0, time.Local)
-	w := &world{dir: filepath.Join(dir, "db"), origin: origin, cfg: segCfg{Unit: "DAY", TTL: 100000}, closes: &atomic.Int32{}, num: 1}
+	w := &world{dir: filepath.Join(dir, "db"), origin: origin, cfg: segCfg{Unit: "DAY", TTL: 100000}, closes: &atomic.Int32{}, num: 1,
+		misuse: &atomic.Pointer[string]{}, slowTables: true}
 	_ = os.MkdirAll(w.dir, 0o700)
 	if err = w.open(0); err != nil {
 		res.Inconclusive = append(res.Inconclusive, "open: "+err.Error())
@@ -201,6 +202,9 @@ func runSegStress(cfgJSON string, res *vlib.Result) {
 	time.Sleep(time.Duration(sc.Millis) * time.Millisecond)
 	stop.Store(true)
 	wg.Wait()
+	if mu := w.misuse.Load(); mu != nil {
+		fail("table-used-after-or-during-close", *mu)
+	}
 	// quiescence: no reference may be left behind
 	for _, s := range storage.VerifSegments(w.db) {
 		if s.RefCount != 0 || s.Unpinned != 0 {
